@@ -89,6 +89,16 @@ def pure_desc(rng):
             c["fun"].pop("bad")
     d["options"]["maxfev"] = min(int(d["options"].get("maxfev", 100)), 120)
     d["form"] = int(rng.integers(6))
+    # ill-defined entries are cleaned up by the solver: it must clean its own copies, not the caller's arrays
+    if d.get("bounds") and rng.random() < 0.35:
+        side = "lb" if rng.random() < 0.5 else "ub"
+        d["bounds"][side][int(rng.integers(len(d["x0"])))] = "nan"
+    for c in d.get("constraints", []):
+        if c["type"] == "linear" and rng.random() < 0.3:
+            side = "lb" if rng.random() < 0.5 else "ub"
+            c[side][int(rng.integers(len(c[side])))] = "nan"
+        if c["type"] == "linear" and rng.random() < 0.15:
+            c["A"][0][int(rng.integers(len(d["x0"])))] = float("nan")
     return d
 
 
@@ -110,6 +120,11 @@ def build(d):
     from scipy.optimize import Bounds
     if isinstance(pb["bounds"], Bounds):
         pb["bounds"] = Bounds(np.array(pb["bounds"].lb, float), np.array(pb["bounds"].ub, float))
+    elif pb["bounds"] is not None:
+        pb["bounds"] = np.ascontiguousarray(np.array(pb["bounds"], float))
+    from scipy.optimize import LinearConstraint
+    pb["constraints"] = [LinearConstraint(np.array(c.A, float), np.array(c.lb, float), np.array(c.ub, float)) if isinstance(c, LinearConstraint) else c
+                         for c in pb["constraints"]]
     pb["options"] = dict(pb["options"])
     return pb
 
@@ -305,7 +320,9 @@ def explore(rng, n_problems, thread_counts):
                 fails.append((d, "shared arguments were modified by concurrent calls", {"threads": nt}))
     finally:
         sys.setswitchinterval(old_si)
-    ch = diff_state(state0, package_state())
+    # warnings.filters is interpreter-global and is rewritten by every warnings.catch_warnings() block of scipy / numpy,
+    # which CPython does not make thread-safe: it is compared for sequential calls only (above), not across threads
+    ch = [k for k in diff_state(state0, package_state()) if k != "warnings.filters"]
     if ch:
         fails.append((descs[0], "package-level or numpy global state changed across concurrent calls: " + ", ".join(ch[:6]), {"changed": ch}))
     # ---- nested calls: an objective that itself calls minimize
